@@ -79,6 +79,16 @@ class Run:
             raise SourceError(f"vacuous contract: precondition unsatisfiable for {bad_cover}")
         if not obs:
             raise SourceError("zero obligations generated")
+        if os.environ.get("VERIF_DEBUG"):
+            for o in obs:
+                if o.result["verdict"] != "unsat":
+                    print("DEBUG", o.name, o.result["verdict"], "clause:", o.meta.get("clause"))
+                    print("   trail:", [f"{l}={b}" for l, b in o.meta.get("trail", [])])
+                    if os.environ.get("VERIF_DEBUG") == "2":
+                        for h in o.hyps:
+                            print("   H:", str(h)[:300].replace("\n", " "))
+                        print("   G:", str(o.goal)[:600])
+                    print("   model:", (o.result["model"] or "")[:int(os.environ.get("VERIF_DEBUG_N", "1200"))].replace("\n", "\n      "))
         refuted = [o for o in obs if o.result["verdict"] == "sat"]
         undecided = [o for o in obs if o.result["verdict"] not in ("sat", "unsat")]
         known = load_known().get("known", [])
@@ -99,9 +109,17 @@ class Run:
             for kf in bp.get("known_findings", []):
                 print(f"KNOWN-FINDING: property={self.pid} {kf}")
         replay_paths = []
-        for o in violations:
-            rp = self.write_replay(o)
+        weak = []
+        for o in list(violations):
+            rp, reproduced = self.write_replay(o, quiet=bool(o.meta.get("unannotated_loop")))
             replay_paths.append(rp)
+            if o.meta.get("unannotated_loop") and not reproduced:
+                # the path crossed a loop the sidecar has no invariant for: the failed proof is not a refutation unless it replays
+                violations.remove(o)
+                weak.append(o)
+        undecided += weak
+        for fn, ordn, line in getattr(self.eng, "unannotated_loops", []):
+            print(f"NOTE: {fn} loop #{ordn} (line {line}) has no invariant in the sidecar; proved with the trivial invariant and an inferred frame")
         for bp in self.bounded_parts:
             for v in bp.get("violations", []):
                 rp = self.write_bounded_replay(bp, v)
@@ -122,7 +140,7 @@ class Run:
             return EXIT_UNDECIDED
         return EXIT_OK
 
-    def write_replay(self, o):
+    def write_replay(self, o, quiet=False):
         d = os.environ.get("VERIF_REPLAY_DIR") or os.path.join(ROOT, "replays")
         os.makedirs(d, exist_ok=True)
         safe = re.sub(r"[^A-Za-z0-9_.#-]+", "_", o.name)[:120]
@@ -143,8 +161,9 @@ class Run:
         with open(path, "w") as f:
             json.dump(rec, f, indent=1, default=str)
         tail = "" if reproduced else " no-failing-input-found"
-        print(f"VIOLATION property={self.pid} replay={path} obligation={o.name}{tail}")
-        return path
+        if not quiet or reproduced:
+            print(f"VIOLATION property={self.pid} replay={path} obligation={o.name}{tail}")
+        return path, reproduced
 
     def write_bounded_replay(self, bp, v):
         d = os.environ.get("VERIF_REPLAY_DIR") or os.path.join(ROOT, "replays")
@@ -208,6 +227,27 @@ class Run:
         os.makedirs(evd, exist_ok=True)
         with open(os.path.join(evd, f"{self.pid}.json"), "w") as f:
             json.dump(ev, f, indent=1, default=str)
+
+
+def run_child(repo_root, script, args=(), timeout=600):
+    """run a replay script on the *same tree the VCs came from*, under the repository's interpreter, in a scratch directory
+    outside /repo and /verif; returns the parsed JSON it prints (or an error record)"""
+    import subprocess
+    import tempfile
+    import shutil
+    d = tempfile.mkdtemp(prefix="vreplay", dir=os.environ.get("TMPDIR", "/tmp"))
+    try:
+        env = dict(os.environ, PYTHONPATH=repo_root, PYTHONDONTWRITEBYTECODE="1", PYTHONHASHSEED=os.environ.get("PYTHONHASHSEED", "0"))
+        r = subprocess.run([os.environ.get("VERIF_REPO_PYTHON", "/venv/bin/python"), os.path.join(ROOT, "replay", script)] + list(args),
+                           capture_output=True, text=True, env=env, cwd=d, timeout=timeout)
+        try:
+            return json.loads(r.stdout.strip().splitlines()[-1])
+        except Exception:  # noqa
+            return {"error": "replay script produced no JSON", "stdout": r.stdout[-800:], "stderr": r.stderr[-1500:], "returncode": r.returncode}
+    except Exception as e:  # noqa
+        return {"error": repr(e)}
+    finally:
+        shutil.rmtree(d, ignore_errors=True)
 
 
 def load_known():
